@@ -232,8 +232,8 @@ SAN_ENV = {'ASAN_OPTIONS': 'detect_leaks=0:abort_on_error=0:exitcode=66', 'UBSAN
 def run_side(binary, ops_path, out_path, err_path=None, flush=False):
     env = dict(os.environ)
     env.update(SAN_ENV)
-    if flush:
-        env['VERIF_FLUSH'] = '1'
+    if flush or binary.endswith('_san'):
+        env['VERIF_FLUSH'] = '1'      # a sanitizer abort must be attributable to the op that caused it
     with open(out_path, 'w') as o, open(err_path or os.devnull, 'w') as e:
         p = subprocess.run([binary, ops_path], stdout=o, stderr=e, env=env)
     return p.returncode
